@@ -118,6 +118,42 @@ def sig_of(steps):
     return ",".join(one(st) for st in steps)
 
 
+def failing(chk, behs, tag):
+    """Replay behaviours; returns [(k, prop, behaviour, trace lines)] for the executions the monitor flags
+    (k = 1-based index of the first failing step)."""
+    bp, trace = chk.path(f"behaviours-{tag}.ndjson"), chk.path(f"trace-{tag}.ndjson")
+    vf.write_ndjson(bp, behs)
+    r = vf.qxv("sm", trace, in_path=bp, seed=chk.seed, tier=chk.tier, check=False, opts={"raw": 1})
+    vf.repair_truncated(trace)
+    cases = vf.split_cases(trace)
+    if r["sanitizer"] or r["rc"] != 0 or not behs:
+        return []
+    sx = vf.tlc_trace("StreamMgmtTrace.tla", "StreamMgmtTrace.cfg", trace, tag=f"StreamMgmtTrace-{tag}", heap="3g")
+    names = list(cases)
+    res, seen = [], set()
+    for v in sorted(sx["viol"], key=lambda v: v["line"]):
+        if v["case"] in seen:
+            continue
+        seen.add(v["case"])
+        k = v["line"] - (sum(len(cases[c]) for c in names[:names.index(v["case"])]) + 1)
+        res.append((k, v["prop"], behs[int(v["case"][1:]) - 1], cases[v["case"]]))
+    return res
+
+
+def minimise(chk, b, prop, k):
+    """Shrink a violating behaviour: cut after the failing step, then drop single steps while the same
+    predicate still fails (each round = one harness run + one monitor run).  Gives short, stable signatures."""
+    cur = {"steps": b["steps"][:k]}
+    for rnd in range(25):
+        cands = [{"steps": cur["steps"][:i] + cur["steps"][i + 1:]} for i in range(len(cur["steps"]))]
+        hits = [(kk, c) for kk, p, c, _ in failing(chk, cands, f"min{rnd}") if p == prop]
+        if not hits:
+            break
+        kk, c = min(hits, key=lambda h: (h[0], vf._canon(h[1])))
+        cur = {"steps": c["steps"][:kk]}
+    return cur
+
+
 def run(chk, replay=None):
     quick = chk.tier == "quick"
     # 1. design level: exhaustive model check of the accounting + session machine
@@ -143,7 +179,7 @@ def run(chk, replay=None):
         bp = chk.path(f"behaviours-{ci}.ndjson")
         trace = chk.path(f"trace-{ci}.ndjson")
         vf.write_ndjson(bp, chunks[ci])
-        r = vf.qxv("sm", trace, in_path=bp, seed=chk.seed, tier=chk.tier, check=False)
+        r = vf.qxv("sm", trace, in_path=bp, seed=chk.seed, tier=chk.tier, check=False, opts={"raw": 1} if replay else None)
         vf.repair_truncated(trace)
         cases = vf.split_cases(trace)
         if r["sanitizer"] or r["rc"] != 0:
@@ -199,8 +235,17 @@ def run(chk, replay=None):
             found.append((k, sig, v, b, mine))
     chk.cov["violating_executions"] = len(found)
     chk.cov["violated_predicates"] = dict(collections.Counter(f[2]["prop"] for f in found))
-    for k, sig, v, b, mine in sorted(found, key=lambda f: (f[0], f[1]))[:5]:      # the shortest histories first
-        chk.violation(sig, f"{v['prop']} fails at step {k} ({v['e']}) of the execution of behaviour {sig_of(b['steps'])}; "
+    done = set()
+    for k, sig, v, b, mine in sorted(found, key=lambda f: (f[0], f[1])):      # per predicate: the shortest history, minimised
+        if v["prop"] in done:
+            continue
+        done.add(v["prop"])
+        small = minimise(chk, b, v["prop"], k)
+        again = [f for f in failing(chk, [small], "confirm") if f[1] == v["prop"]]      # confirmed re-run of the small history
+        if again:
+            k, _, b, mine = again[0]
+            sig = "C09:" + v["prop"] + ":" + sig_of(b["steps"][:k])
+        chk.violation(sig, f"{v['prop']} fails at step {k} ({mine[k]['e']}) of {sig_of(b['steps'])}; "
                       f"observed: {vf._canon(mine[k].get('o'))}", [b] + mine)
     chk.assumptions += [
         "the scripted server is honest in framing and negotiation; only its h values are arbitrary (stale, exact, beyond)",
